@@ -24,7 +24,11 @@ macro_rules! run_with_actor_scope {
             }
         };
         #[cfg(rsactor_verif)]
-        __verif_hook.exit(crate::__verif::Outcome::code(&__scope_out));
+        {
+            #[allow(unused_imports)]
+            use crate::__verif::{CodeAny as _, CodeRes as _, CodeRun as _};
+            __verif_hook.exit((&&&crate::__verif::Probe(&__scope_out)).verif_code());
+        }
         __scope_out
     }};
 }
@@ -44,7 +48,19 @@ macro_rules! with_actor_scope {
             }
         };
         #[cfg(rsactor_verif)]
-        let __scope_fut = crate::__verif::RunFut::new(&$actor_id, __scope_fut);
+        let __scope_fut = {
+            let __verif_id = $actor_id;
+            async move {
+                let __verif_hook = crate::__verif::HookGuard::enter(&__verif_id, stringify!($fut));
+                let __scope_out = __scope_fut.await;
+                {
+                    #[allow(unused_imports)]
+                    use crate::__verif::{CodeAny as _, CodeRes as _, CodeRun as _};
+                    __verif_hook.exit((&&&crate::__verif::Probe(&__scope_out)).verif_code());
+                }
+                __scope_out
+            }
+        };
         __scope_fut
     }};
 }
